@@ -29,3 +29,46 @@ fn c21_native_tal_name_with_quote() {
     }
     assert!(bad.is_empty(), "formats producing invalid JSON: {:?}", bad);
 }
+
+/// Native replay for the selection-building obligations: for queries with nested, repeated and disjoint
+/// select-prefix values (both orders, with and without more-specifics) the real Output must include exactly
+/// the probe origins that some given value selects (reference computed from the values themselves).
+#[test]
+fn c21_native_selection_rules() {
+    use rpki::resources::MaxLenPrefix;
+    use std::str::FromStr;
+    let pfx = |s: &str| Prefix::from_str(s).unwrap();
+    let probes: Vec<RouteOrigin> = ["10.0.0.0/8", "10.0.0.0/12", "10.1.0.0/16", "10.1.1.0/24", "11.0.0.0/8", "0.0.0.0/0", "2001:db8::/32"]
+        .iter().flat_map(|p| [64496u32, 64497].into_iter().map(move |a| (p, a)))
+        .map(|(p, a)| RouteOrigin::new(MaxLenPrefix::new(pfx(p), None).unwrap(), Asn::from_u32(a))).collect();
+    let cases: [(&[&str], &[u32]); 6] = [
+        (&["10.0.0.0/8", "10.1.0.0/16"], &[]), (&["10.1.0.0/16", "10.0.0.0/8"], &[]), (&["10.0.0.0/8", "10.0.0.0/8"], &[]),
+        (&["2001:db8::/32"], &[64496, 64496]), (&["0.0.0.0/0", "10.1.1.0/24"], &[]), (&["10.1.1.0/24", "11.0.0.0/8"], &[64497]),
+    ];
+    let mut bad = Vec::new();
+    for (prefixes, asns) in cases {
+        for ms in [false, true] {
+            let mut q: Vec<String> = prefixes.iter().map(|p| format!("select-prefix={}", p)).collect();
+            q.extend(asns.iter().map(|a| format!("select-asn={}", a)));
+            if ms { q.push("include=more-specifics".into()) }
+            let q = q.join("&");
+            let out = Output::from_query(Some(&q)).unwrap();
+            let mut sel = Selection::new();
+            for p in prefixes { sel.push_prefix(pfx(p)) }
+            for a in asns { sel.push_asn(Asn::from_u32(*a)) }
+            sel.set_more_specifics(ms);
+            for o in &probes {
+                let want = asns.iter().any(|a| o.asn == Asn::from_u32(*a)) || prefixes.iter().any(|p| {
+                    o.prefix.prefix().covers(pfx(p)) || (ms && pfx(p).covers(o.prefix.prefix()))
+                });
+                if out.include_origin(*o) != want || sel.include_origin(*o) != want {
+                    println!("C21-NATIVE-SEL query {} : origin {} AS{} included={} / via push_*={} but the given values {}select it",
+                             q, o.prefix.prefix(), o.asn, out.include_origin(*o), sel.include_origin(*o), if want { "" } else { "do not " });
+                    bad.push(q.clone());
+                }
+            }
+        }
+    }
+    println!("C21-NATIVE-SEL {} of 12 queries select something other than their values do", { bad.dedup(); bad.len() });
+    assert!(bad.is_empty(), "selection differs from the given values for: {:?}", bad);
+}
